@@ -104,11 +104,35 @@ def strip_tolist(node):
                 and isinstance(node.slice.step.operand, ast.Constant) and node.slice.step.operand.value == 1:
             rev = not rev                       # x[::-1]
             node = node.value
+        elif isinstance(node, ast.Call) and ((isinstance(node.func, ast.Name) and node.func.id == "sorted") or
+                                               (isinstance(node.func, ast.Attribute) and node.func.attr in ("sort", "msort") and node.args)) \
+                and len(node.args) >= 1:
+            # ordered by VALUE: neither the grid order nor its reverse (a present, wrong construct)
+            core, _ = strip_tolist(node.args[0])
+            return core, "by-value"
         elif isinstance(node, ast.Call) and isinstance(node.func, ast.Attribute) and node.func.attr == "flip" and len(node.args) == 1:
             rev = not rev                       # np.flip(x)
             node = node.args[0]
         else:
             return node, rev
+
+
+def resolve_vector(flow, node):
+    """strip_tolist, continued through plain names whose definition is itself such a wrapper
+    (`v = list(reversed(x.tolist()))` ; `dump(v)`).  -> (core, reversal)"""
+    core, rev = strip_tolist(node)
+    for _ in range(4):
+        if rev == "by-value" or not isinstance(core, ast.Name):
+            break
+        dv = flow.def_value(core)
+        if dv is None:
+            break
+        c2, r2 = strip_tolist(dv)
+        if c2 is dv:
+            break                       # defined by something else than a conversion / reversal: this is the array
+        core = c2
+        rev = "by-value" if r2 == "by-value" else (rev != r2)
+    return core, rev
 
 
 def check_output_table(ctx, chk, rule, f, roles_of_name, what_measured, extra_units=None):
@@ -265,8 +289,11 @@ def run(ctx, chk, tier="quick"):
         ok = False
         desc = "?"
         if dump is not None and dump.args:
-            core, rev = strip_tolist(dump.args[0])
+            core, rev = resolve_vector(gflow, dump.args[0])
             desc = ast.unparse(dump.args[0])
-            ok = isinstance(core, ast.Name) and roles.get(core.id) == "simulated" and not rev
+            if not isinstance(core, ast.Name) or core.id not in roles:
+                chk.indeterminate("C17.O4", where_of(g, wcall), "vector written after the marker, %s, is not one of the curve arrays (possibly converted / reversed)" % desc[:80])
+                continue
+            ok = roles.get(core.id) == "simulated" and rev is False
         chk.ob("C17.O4", ok, where_of(g, wcall), "after marker %r the vector written is %s" % (marker.strip(), desc),
                "the simulated curve, in grid order", key="simulate_rise|vector")
